@@ -499,7 +499,8 @@ def gen_use(quick, seed):
     out.append(ps("use:base", "\n".join(stmts_main), pt=STD_PT, extra=base_extra, tag="use(): shared point, separate variables"))
     # exit() / error injected at every statement position of every script, also inside branches and loops
     wrappers = ["%s", "if true {\n%s\n}", "for i = 0; i < 2; i = i + 1 {\n%s\n}", "for v in [1, 2] {\nif v == 2 {\n%s\n}\nprobe(v)\n}",
-                "w = 0\nfor ; w < 2; add_key(pst, w) {\nw = w + 1\n%s\n}", "w = 0\nfor ; w < 3; probe(7, w) {\nw = w + 1\nif w == 2 {\n%s\n}\n}"]
+                "w = 0\nfor ; w < 2; add_key(pst, w) {\nw = w + 1\n%s\n}", "w = 0\nfor ; w < 3; probe(7, w) {\nw = w + 1\nif w == 2 {\n%s\n}\n}",
+                'for c in "xy" {\n%s\nprobe(c)\n}', 'for k in {"a": 1} {\n%s\n}']
     # exit() ends its script wherever the call is written: as a statement of its own, as an assignment source, inside a
     # parenthesis, a list, an argument or an operand
     injections = [("exit", "exit()"), ("fail", "q = 1 + nil"), ("failkey", "add_key(kq, 1 + nil)"),
@@ -561,6 +562,9 @@ def gen_cancel(quick, seed):
         ("brk-post", "i = 0\nfor ; i < 4; probe(8, i) {\ni = i + 1\nif i == 3 { break }\nprobe(i)\n}\nprobe(9)", None),
         ("exit-post", "i = 0\nfor ; i < 4; probe(8, i) {\ni = i + 1\nif i == 2 { exit() }\nprobe(i)\n}\nprobe(9)", None),
         ("exit", "probe(1)\nfor i = 0; i < 3; i = i + 1 {\nif i == 1 { exit() }\nprobe(i)\n}\nprobe(2)", None),
+        # long runs: polling must not thin out with the number of polls already made (bodies of two and three statements)
+        ("long2", "n = 0\nfor i = 0; i < 450; i = i + 1 {\nn = n + 1\nx = i\n}\nprobe(n)", 9000),
+        ("long3", "n = 0\nfor v in [1, 2, 3, 4, 5, 6, 7, 8] {\nfor i = 0; i < 45; i = i + 1 {\nn = n + v\nx = i\ny = v\n}\n}\nprobe(n)", 9000),
     ]
     for name, text, fuel in progs:
         out.append(ps("cancel:" + name, text, fuel=fuel, tag="cancellation"))
